@@ -266,6 +266,30 @@ pub fn c15_on_panic(leaf: &mut Leaf) {
 }
 
 // ------------------------------------------------------------------------------------------------ C17
+/// Replay side of KANI K5: `cgt_format::round_gbp` against the integer specification of half-away-from-zero rounding on
+/// every mantissa below 200000 at scales 3 and 4, both signs (native scan on the real build).
+pub fn c17_round(_sk: &Skeleton) -> Leaf {
+    let mut leaf = Leaf { outcome: "ok".into(), ..Default::default() };
+    let mut bad = String::new();
+    'scan: for scale in [3u32, 4] {
+        let p: i64 = if scale == 3 { 10 } else { 100 };
+        for lo in 0i64..200_000 {
+            for neg in [false, true] {
+                let d = Decimal::new(if neg { -lo } else { lo }, scale);
+                let e = lo / p + if (lo % p) * 2 >= p { 1 } else { 0 };
+                let want = Decimal::new(if neg { -e } else { e }, 2);
+                let got = cgt_format::round_gbp(d);
+                if got != want {
+                    bad = format!("round_gbp({d}) = {got}, half away from zero gives {want}");
+                    break 'scan;
+                }
+            }
+        }
+    }
+    leaf.ob_bool("C17.round_gbp-is-half-away-from-zero", bad.is_empty(), &bad);
+    leaf
+}
+
 pub(crate) fn half_away(v: Decimal) -> Decimal {
     v.round_dp_with_strategy(2, RoundingStrategy::MidpointAwayFromZero)
 }
